@@ -28,3 +28,17 @@ Theorem C19_half_initialised_connection_is_reused :
   p_has s' = true /\ p_id s' = 0 /\ p_fk s' = false /\ next s' = 1.
 Proof. vm_compute. repeat split. Qed.
 Print Assumptions C19_half_initialised_connection_is_reused.
+
+(* later-sessions-fail-after-failed-connection-init: in a thread whose pool never connected (SQLitePool.__init__ creates no
+   `pid` attribute), the failed initialisation leaves pool.con set and pool.pid missing; `pool.pid != pid` in Pool.connect then
+   raises AttributeError in every later session, although those sessions meet no fault at all. *)
+Theorem C19_following_session_fails_refuted :
+  let rs := run_sessions (faults_oracle [1]) [(ShOpt, [(OSelect, false)]); (ShImm, [(ORawWrite, false)]); (ShOpt, [(OSelect, false)])] st_empty in
+  fst rs = Err EAttr /\ length (trace (snd rs)) = 2.
+Proof. vm_compute. repeat split. Qed.
+Print Assumptions C19_following_session_fails_refuted.
+(* the same sessions in a thread that had connected before (pool.pid exists) work, on the half-initialised connection *)
+Theorem C19_following_session_ok_when_pid_exists :
+  fst (run_sessions (faults_oracle [1]) [(ShOpt, [(OSelect, false)]); (ShImm, [(ORawWrite, false)]); (ShOpt, [(OSelect, false)])] st_disconnected) = Ok.
+Proof. vm_compute. reflexivity. Qed.
+Print Assumptions C19_following_session_ok_when_pid_exists.
